@@ -609,6 +609,32 @@ SYNTH_STATIC = {
         return;
     }
 }''',
+    '__peek_next_if': '''fn __peek_next_if(_1: &mut P, _2: F) -> Option {
+    bb0: {
+        _3 = Peekable::<I>::peek(copy _1) -> [return: bb1, unwind continue];
+    }
+    bb1: {
+        _4 = discriminant(_3);
+        switchInt(move _4) -> [0: bb5, otherwise: bb2];
+    }
+    bb2: {
+        _5 = copy ((_3 as Some).0: &T);
+        _6 = __call_value(move _2, move _5) -> [return: bb3, unwind continue];
+    }
+    bb3: {
+        switchInt(move _6) -> [0: bb5, otherwise: bb4];
+    }
+    bb4: {
+        _0 = __iter_next(copy _1) -> [return: bb6, unwind continue];
+    }
+    bb5: {
+        _0 = Option::<T>::None;
+        return;
+    }
+    bb6: {
+        return;
+    }
+}''',
     '__iter_rposition': '''fn __iter_rposition(_1: &mut I, _2: F) -> Option {
     bb0: {
         _9 = __iter_len(copy _1) -> [return: bb6, unwind continue];
@@ -1729,6 +1755,10 @@ def model(ex, st, c, args):
     if c in ('__iter_next',) or re.fullmatch(r'<.* as Iterator>::next', c):
         it = D(args[0])
         return iter_next(ex, st, it, args[0], c)
+    if c in ('std::iter::from_fn', 'core::iter::from_fn'):
+        return AdaptV('from_fn', None, args[0])
+    if c in ('Peekable::next_if', 'Peekable::next_if_eq'):
+        return ('BODY', synth_static(ex, '__peek_next_if' if c.endswith('next_if') else '__peek_next_if_eq'), args)
     if c == 'Peekable::peek':
         pk = D(args[0])
         it = pk.it
@@ -2188,6 +2218,53 @@ def model(ex, st, c, args):
                 return none()
             return some(it.items.pop())
         raise Unsupported('next_back on %r' % (it,))
+    if c in ('Chars::as_str', 'std::str::Chars::as_str', 'core::str::Chars::as_str'):
+        it = D(args[0])
+        if not isinstance(it, CharsV):
+            raise Unsupported('as_str on %r' % (it,))
+        return Ref(st.new_cell(SStr(list(D(it.ref).items[it.pos:it.end]))), [])
+    if c in ('core::str::<impl str>::split_once', 'core::str::<impl str>::find', 'core::str::<impl str>::rsplit_once', 'core::str::<impl str>::rfind'):
+        s = to_sstr(ex, args[0])
+        if not s.is_plain():
+            raise Unsupported('%s on a string with an opaque segment' % c)
+        pat = args[1]
+        pv = D(pat) if isinstance(pat, Ref) else pat
+        if isinstance(pv, Int):
+            pitems = [pv]
+        elif isinstance(pv, SStr) and pv.is_plain() and pv.items:
+            pitems = pv.items
+        else:
+            raise Unsupported('%s with pattern %r' % (c, pv))
+        m_ = len(pitems)
+        n_ = len(s.items)
+        cands = list(range(0, n_ - m_ + 1))
+        if c.split('::')[-1].startswith('r'):
+            cands.reverse()
+        opts, prior = [], []
+        for i in cands:
+            hit = z3.And(*[s.items[i + j].t == pitems[j].t for j in range(m_)])
+            opts.append((z3.And(hit, *[z3.Not(p_) for p_ in prior]) if prior else hit, i))
+            prior.append(hit)
+        opts.append((z3.And(*[z3.Not(p_) for p_ in prior]) if prior else z3.BoolVal(True), None))
+        i = B(opts)
+        if i is None:
+            return none()
+        if c.endswith('find'):
+            return some(Int(str_byte_len(SStr(s.items[:i])), False))
+        return some(Adt('tuple', 0, [Ref(st.new_cell(SStr(list(s.items[:i]))), []), Ref(st.new_cell(SStr(list(s.items[i + m_:]))), [])]))
+    if c in ('core::str::<impl str>::strip_prefix', 'core::str::<impl str>::strip_suffix') and isinstance(args[1], Int):
+        s = to_sstr(ex, args[0])
+        if not s.items:
+            return none()
+        at_end = c.endswith('suffix')
+        ch = s.items[-1 if at_end else 0]
+        if not isinstance(ch, Int):
+            raise Unsupported('strip_prefix on an opaque segment')
+        cond = z3.simplify(ch.t == args[1].t)
+        t = B([(cond, 'y'), (z3.Not(cond), 'n')])
+        if t == 'n':
+            return none()
+        return some(Ref(st.new_cell(SStr(s.items[:-1] if at_end else s.items[1:])), []))
     if c == 'core::str::<impl str>::strip_prefix':
         s = to_sstr(ex, args[0])
         pre = to_sstr(ex, args[1])
@@ -2738,6 +2815,8 @@ def iter_next(ex, st, it, handle, c):
         return some(v)
     if isinstance(it, AdaptV):
         end = ex.ref_chain_end(handle)
+        if it.kind == 'from_fn':
+            return call_value(ex, st, Ref(end.cell, list(end.path) + [('attr', 'fn')], mut=True), [])
         if it.kind == 'filter_map':
             return ('BODY', synth_static(ex, '__filter_map_next'), [end])
         if it.kind == 'map':
